@@ -287,99 +287,124 @@ func s2(c *vlib.Case) string {
 	return c.OneOf("val", "", "1", "2", "x")
 }
 
+const asyncSilenceRule = "3-4 real gossip.New instances in the virtual-time bubble; half of the clusters also know a peer whose advertised address cannot be used (every send to it fails); one node crashes (its sockets go silent) after a drawn uptime during which nobody may be suspected; oracle: every survivor marks it unreachable within 45 virtual seconds and never marks itself or another survivor unreachable for good, the crashed node is excluded from live nodes while marked; whether it stays forgotten after expiry is recorded as known finding F2 (re-learned from a survivor's digest) rather than asserted; every case is non-trivial"
+
 func TestC11Async(t *testing.T) {
-	vlib.SetRule("C11", "TestC11Async", "3-4 real gossip.New instances in the virtual-time bubble; half of the clusters also know a peer whose advertised address cannot be used (every send to it fails); one node crashes (its sockets go silent) after a drawn uptime; oracle: every survivor marks it unreachable within 45 virtual seconds and never marks itself or another survivor unreachable for good, the crashed node is excluded from live nodes while marked; whether it stays forgotten after expiry is recorded as known finding F2 (re-learned from a survivor's digest) rather than asserted; every case is non-trivial")
-	vlib.RunSync(t, "C11", func(c *vlib.Case) {
-		N := c.Int("nodes", 3, 4)
-		nw, nodes := startAsync(c, N, 1400, int64(c.Int("netSeed", 1, 1<<30)))
-		defer func() {
-			for _, n := range nodes {
-				_ = n.g.Close()
-			}
-			time.Sleep(time.Second)
-		}()
-		c.NonTrivial()
+	vlib.SetRule("C11", "TestC11Async", asyncSilenceRule)
+	vlib.RunSync(t, "C11", func(c *vlib.Case) { runAsyncSilence(c, "C11", true) })
+}
+
+// TestC12Async claims the first half of the same scenario for C12: with the real
+// schedulers, listeners and periodic liveness evaluation around the detector, a
+// steadily gossiping peer is never suspected and a silent one always is.
+func TestC12Async(t *testing.T) {
+	vlib.SetRule("C12", "TestC12Async", "the detector inside the real gossip.New (reports on every received delta, periodic liveness evaluation): "+asyncSilenceRule)
+	vlib.RunSync(t, "C12", func(c *vlib.Case) { runAsyncSilence(c, "C12", false) })
+}
+
+func runAsyncSilence(c *vlib.Case, prop string, checkForgotten bool) {
+	N := c.Int("nodes", 3, 4)
+	nw, nodes := startAsync(c, N, 1400, int64(c.Int("netSeed", 1, 1<<30)))
+	defer func() {
 		for _, n := range nodes {
-			n.g.UpsertLocal("k", n.id)
+			_ = n.g.Close()
 		}
-		// half of the clusters also know of a peer whose advertised address cannot be
-		// used (no port): every attempt to gossip with it fails on the sending side.
-		// Nothing else may depend on those attempts succeeding.
-		ghost := c.Bool("unusablePeerAddress")
-		uptime := time.Duration(c.Int("uptimeSec", 2, 40)) * time.Second
-		if ghost {
-			for _, n := range nodes {
-				n.g.VerifSeed(gossip.VerifDigest{{ID: "ghost", Addr: "ghost-address-without-port"}})
-			}
-			// the crash falls into the time in which the unusable peer is known and
-			// already suspected (it is forgotten a minute after that)
-			uptime = time.Duration(c.Int("uptimeSecGhost", 6, 14)) * time.Second
-			c.Class("peer-with-unusable-address")
+		time.Sleep(time.Second)
+	}()
+	c.NonTrivial()
+	for _, n := range nodes {
+		n.g.UpsertLocal("k", n.id)
+	}
+	// half of the clusters also know of a peer whose advertised address cannot be
+	// used (no port): every attempt to gossip with it fails on the sending side.
+	// Nothing else may depend on those attempts succeeding.
+	ghost := c.Bool("unusablePeerAddress")
+	uptime := time.Duration(c.Int("uptimeSec", 2, 40)) * time.Second
+	if ghost {
+		for _, n := range nodes {
+			n.g.VerifSeed(gossip.VerifDigest{{ID: "ghost", Addr: "ghost-address-without-port"}})
 		}
-		time.Sleep(uptime)
-		victim := nodes[c.Pick("victim", N)]
-		nw.mu.Lock()
-		victim.pc.down = true
-		nw.mu.Unlock()
-		c.Stepf("%s crashes", victim.id)
-		// measured: 3-10 virtual seconds (20 times the mean interval between packets of
-		// the victim); the bound is 45
-		flagged := false
-		for sec := 0; sec < 45 && !flagged; sec++ {
-			time.Sleep(time.Second)
-			flagged = true
-			for _, s := range nodes {
-				if s == victim {
-					continue
+		// the crash falls into the time in which the unusable peer is known and
+		// already suspected (it is forgotten a minute after that)
+		uptime = time.Duration(c.Int("uptimeSecGhost", 6, 14)) * time.Second
+		c.Class("peer-with-unusable-address")
+	}
+	// while everybody is up, nobody is suspected (the unusable peer aside)
+	for el := time.Duration(0); el < uptime; el += time.Second {
+		time.Sleep(time.Second)
+		for _, o := range nodes {
+			for _, m := range o.g.Nodes() {
+				if m.ID != "ghost" && m.Unreachable {
+					c.Fatalf(prop+": %s considers the live, steadily gossiping node %s unreachable after %v of uptime", o.id, m.ID, el+time.Second)
 				}
-				found := false
-				for _, m := range s.g.Nodes() {
-					if m.ID == victim.id {
-						found = true
-						if !m.Unreachable {
-							flagged = false
-						}
+			}
+		}
+	}
+	victim := nodes[c.Pick("victim", N)]
+	nw.mu.Lock()
+	victim.pc.down = true
+	nw.mu.Unlock()
+	c.Stepf("%s crashes", victim.id)
+	// measured: 3-10 virtual seconds (20 times the mean interval between packets of
+	// the victim); the bound is 45
+	flagged := false
+	for sec := 0; sec < 45 && !flagged; sec++ {
+		time.Sleep(time.Second)
+		flagged = true
+		for _, s := range nodes {
+			if s == victim {
+				continue
+			}
+			found := false
+			for _, m := range s.g.Nodes() {
+				if m.ID == victim.id {
+					found = true
+					if !m.Unreachable {
+						flagged = false
 					}
 				}
-				if !found {
-					// already expired and forgotten
-					continue
-				}
 			}
-		}
-		if !flagged {
-			c.Fatalf("C11: survivors did not all mark the silent node %s unreachable within 45 virtual seconds (unusable peer address present: %v)", victim.id, ghost)
-		}
-		// survivors stay reachable to each other
-		time.Sleep(5 * time.Second)
-		for _, s := range nodes {
-			if s == victim {
+			if !found {
+				// already expired and forgotten
 				continue
 			}
-			for _, m := range s.g.Nodes() {
-				if m.ID == s.id && (m.Unreachable || m.Left) {
-					c.Fatalf("C11: %s marked itself unreachable/left", s.id)
-				}
+		}
+	}
+	if !flagged {
+		c.Fatalf(prop+": survivors did not all mark the silent node %s unreachable within 45 virtual seconds (unusable peer address present: %v)", victim.id, ghost)
+	}
+	// survivors stay reachable to each other
+	time.Sleep(5 * time.Second)
+	for _, s := range nodes {
+		if s == victim {
+			continue
+		}
+		for _, m := range s.g.Nodes() {
+			if m.ID == s.id && (m.Unreachable || m.Left) {
+				c.Fatalf(prop+": %s marked itself unreachable/left", s.id)
 			}
 		}
-		// after the expiry period: is the crashed node forgotten for good?
-		time.Sleep(3 * time.Minute)
-		relearned := false
-		for _, s := range nodes {
-			if s == victim {
-				continue
-			}
-			if m, ok := s.g.Node(victim.id); ok && !m.Left {
-				relearned = true
-			}
+	}
+	if !checkForgotten {
+		return
+	}
+	// after the expiry period: is the crashed node forgotten for good?
+	time.Sleep(3 * time.Minute)
+	relearned := false
+	for _, s := range nodes {
+		if s == victim {
+			continue
 		}
-		if relearned {
-			if !c.Known("F2", "a node that was expired after crashing/closing is re-introduced as live by a peer's digest entry (Left=false) although it sent nothing since") {
-				c.Fatalf("C11 I6: 3 minutes after its expiry period the crashed node %s is still (again) known to a survivor", victim.id)
-			}
-			c.Class("crashed-node-still-known-3min-after-expiry")
-		} else {
-			c.Class("crashed-node-forgotten")
+		if m, ok := s.g.Node(victim.id); ok && !m.Left {
+			relearned = true
 		}
-	})
+	}
+	if relearned {
+		if !c.Known("F2", "a node that was expired after crashing/closing is re-introduced as live by a peer's digest entry (Left=false) although it sent nothing since") {
+			c.Fatalf(prop+" I6: 3 minutes after its expiry period the crashed node %s is still (again) known to a survivor", victim.id)
+		}
+		c.Class("crashed-node-still-known-3min-after-expiry")
+	} else {
+		c.Class("crashed-node-forgotten")
+	}
 }
